@@ -13,8 +13,8 @@ def cases(tier, seed):
     from fv.props import c06
     yield {"kind": "cpp-helper"}
     for m in c06.MS:
-        for k in c06.KS + [None, 0.0]:
-            if tier == "quick" and m in (3,) and k in (1.0, 3.0):
+        for k in c06.KS + c06.KS_EXTRA + [None, 0.0]:
+            if tier == "quick" and m in (3,) and k in (1.0, 3.0, 123.456789012345):
                 continue
             yield {"kind": "cpp-filter", "m": m, "k": k}
 
@@ -24,7 +24,7 @@ def eval_helper(case):
     fails, outcomes, sigs = [], set(), []
     lines, expect = [], []
     for m in c06.MS + [8]:
-        for k in c06.KS:
+        for k in c06.KS + c06.KS_EXTRA:
             for label, y, Sinv, nis in c06.direct_inputs(m, k):
                 lines.append(" ".join([str(m), repr(k)] + [repr(v) for v in y] + [repr(v) for r in Sinv for v in r]))
                 expect.append((m, k, label, nis > Fraction(c06.threshold(k, m)), nis))
